@@ -262,3 +262,39 @@ Proof.
   exists cl; split; [reflexivity|].
   destruct (c_ret cl) as [k|]; [|discriminate]. apply ecode_eqb_eq in A. now subst.
 Qed.
+
+(* ---- output handles: address of a temporary stored through an output parameter ------------------- *)
+
+Fixpoint rev_prefix (a b : string) : bool :=      (* a is a prefix of b *)
+  match a, b with
+  | EmptyString, _ => true
+  | String x a', String y b' => Ascii.eqb x y && rev_prefix a' b'
+  | _, EmptyString => false
+  end.
+Fixpoint srev (s acc : string) : string := match s with EmptyString => acc | String c r => srev r (String c acc) end.
+Definition ends_with (suffix s : string) : bool := rev_prefix (srev suffix EmptyString) (srev s EmptyString).
+
+(* known finding: the four `get_<representation>` templates of ppl_interface_generator_c_cc_code.m4 *)
+Definition exempt_getter (n : string) : bool :=
+  existsb (fun suf => ends_with suf n) ["_get_constraints"; "_get_minimized_constraints"; "_get_congruences"; "_get_minimized_congruences"].
+
+Definition no_dangling_outputs_full : Prop := dangling_outputs = [].
+
+Lemma dangling_only_getters : forallb exempt_getter dangling_outputs = true.
+Proof. vm_compute. reflexivity. Qed.
+
+Lemma dangling_names_are_entries : forallb (fun n => str_mem n entry_names) dangling_outputs = true.
+Proof. vm_compute. reflexivity. Qed.
+
+(* ---- time-outs: the exception object handed to the watchdog ----------------------------------------- *)
+
+Definition timeout_registration_full : Prop :=
+  timeout_registrations = [("ppl_set_deterministic_timeout", CT_class DetTimeout); ("ppl_set_timeout", CT_class Timeout)].
+
+(* what IS true on the tree: both setters register an object of one of the two time-out classes, so an
+   expired time-out is reported as PPL_TIMEOUT_EXCEPTION (which watchdog is disarmed is another matter) *)
+Lemma timeout_registrations_timeout_class :
+  forallb (fun p => match snd p with CT_class c => ecode_eqb (documented_code c) TIMEOUT_EXCEPTION | _ => false end)
+          timeout_registrations = true
+  /\ forallb (fun n => str_mem n (map fst timeout_registrations)) ["ppl_set_timeout"; "ppl_set_deterministic_timeout"] = true.
+Proof. split; vm_compute; reflexivity. Qed.
